@@ -351,6 +351,12 @@ pub fn act_account_close(sim: &mut Sim, ctx: &mut Ctx) -> Option<Tx> {
 pub fn act_accrue(_sim: &Sim, ctx: &mut Ctx) -> Option<Tx> {
     let gi = ctx.rng.below(ctx.world.groups.len() as u64) as usize;
     let b = pick_bank(ctx, gi)?;
+    // hostile crank: the permissionless accrual is handed ANOTHER group's account (its fee
+    // settings - program fees on or off, cached fee values - must never be applied to this bank)
+    if ctx.world.groups.len() > 1 && ctx.rng.chance(1, 5) {
+        let other = ctx.world.groups[(gi + 1) % ctx.world.groups.len()].key;
+        return Some(Tx::one("crank", ix::accrue_interest(other, b.keys.bank)));
+    }
     Some(Tx::one(
         "crank",
         ix::accrue_interest(b.keys.group, b.keys.bank),
